@@ -18,6 +18,9 @@ ENV = dict(os.environ, GOFLAGS="-mod=mod", GOPROXY="off", GOSUMDB="off", GOTOOLC
 NPROC = int(os.environ.get("VERIF_NPROC") or min(16, os.cpu_count() or 4))
 GORACE_OPTS = "log_path=%s halt_on_error=0 history_size=3 atexit_sleep_ms=0 exitcode=0 suppress_equal_stacks=0 suppress_equal_addresses=0"
 
+# plans of the hostile-input worlds nest thousands of levels deep; the summaries and
+# replay files that carry them must stay readable
+sys.setrecursionlimit(60000)
 sys.path.insert(0, VERIF)
 from props import PROPS  # per-property tiers, texts, build flavour
 
